@@ -47,20 +47,44 @@ def main(argv):
                 v3 = {"user": "user%d" % rng.randrange(100), "auth": [auth, kt, akey] if auth else None,
                       "priv": [priv, pkt, pkey] if priv else None, "engine_id": eng if given else None, "agent_engine_id": eng,
                       "boots": rng.randrange(2 ** 31), "time": rng.randrange(2 ** 31)}
-                steps = [{"op": "enter", "default_reply": {"pdu_tag": 0xA8, "mac": "absent", "encrypt": "no", "flags": 0,
-                                                           "boots": v3["boots"], "time": v3["time"]}}]
+                report = {"pdu_tag": 0xA8, "mac": "absent", "encrypt": "no", "flags": 0, "boots": v3["boots"], "time": v3["time"]}
+                # during discovery a stray Report with a foreign message id, engine id and clock arrives first: it must leave no trace
+                stray_report = dict(report, msgid="same+1", engine="80001f8880ee" + "%02x" % rng.randrange(256), boots=7, time=7)
+                steps = [{"op": "enter", "replies": [[stray_report, report]], "default_reply": report}]
                 stamps = []
                 for k in range(6 if thorough else 4):
                     b, t = rng.choice([v3["boots"], v3["boots"] + 1, rng.randrange(2 ** 31)]), rng.choice([0, 1, 2 ** 31 - 1, rng.randrange(2 ** 31)])
                     stamps.append((b, t))
                     vb = ber.varbind(ber.enc_oid([1, 3, 6, 1, 2, 1, 1, 3, 0]), ber.enc_value("tt", k))
                     steps.append({"op": "get", "args": ["1.3.6.1.2.1.1.3.0"], "replies": [[{"vbs": vb.hex(), "boots": b, "time": t}]]})
-                scs.append({"version": "v3", "mode": mode, "timeout": 0.3, "v3": v3, "steps": steps, "_stamps": stamps, "_given": given})
+                    if k == 1:
+                        # a request answered only by a stray (right user and engine id, foreign request-id / message id, other clock):
+                        # it times out, and the session's clock must still be the one of the last ACCEPTED message
+                        svb = ber.varbind(ber.enc_oid([1, 3, 6, 1, 2, 1, 1, 3, 0]), ber.enc_value("tt", 999))
+                        stray = {"vbs": svb.hex(), "boots": b + 3, "time": 424242, rng.choice(["rid", "msgid"]): "same+1"}
+                        steps.append({"op": "get", "args": ["1.3.6.1.2.1.1.3.0"], "replies": [[stray]], "_stray": True})
+                        stamps.append(None)
+                scs.append({"version": "v3", "mode": mode, "timeout": 0.08, "v3": v3, "steps": steps, "_stamps": stamps, "_given": given})
     res, log = vf.run_api_worker("C13", {"scenarios": [{k: v for k, v in sc.items() if not k.startswith("_")} for sc in scs], "model_exe": v3exe}, timeout=1200)
+    stray_steps = sum(1 for sc in scs for st in sc["steps"] if st.get("_stray"))
     n = 0
+    dis = 0
     if res is None:
         c.errors.append("API worker failed: " + log[-1500:])
     else:
+        # the model's state machine replayed over every recorded history (ties Model/V3.v to socket/v3.rs)
+        from lib import v3replay
+        rp = v3replay.Replayer(v3exe)
+        for sc, rec in zip(scs, res["records"]):
+            if "driver_error" in rec or rec.get("create_error"):
+                continue
+            for d in v3replay.replay(rp, sc, rec):
+                dis += 1
+                if dis <= 4:
+                    c.log("model/impl disagree: " + d[:400])
+                if not any(b.startswith("correspondence") for b in c.broken):
+                    c.broken = list(c.broken) + ["correspondence (v3 state machine replay): " + d[:400]]
+        rp.close()
         for sc, rec in zip(scs, res["records"]):
             if "driver_error" in rec:
                 c.errors.append("API driver error: " + rec["driver_error"])
@@ -119,8 +143,14 @@ def main(argv):
                                 key="priv-localization")
                         elif q.get("ctx_engine_id") != v3["agent_engine_id"]:
                             bad("request %d has context engine id %s" % (k, q.get("ctx_engine_id")), q, key="ctx-engine-id")
-                if out["kind"] == "RET" and out["value"] == "int:%d" % k:
-                    expected_stamp = sc["_stamps"][k]
+                if sc["steps"][k + 1].get("_stray"):
+                    if out["kind"] == "RET":
+                        bad("a reply with a foreign request-id / message id was delivered: %s" % out.get("value"), out, key="stray-delivered")
+                    # expected_stamp unchanged: a rejected datagram must not move the clock
+                    continue
+                idx = sum(1 for st in sc["steps"][1:k + 2] if not st.get("_stray")) - 1
+                if out["kind"] == "RET" and out["value"] == "int:%d" % idx:
+                    expected_stamp = [x for x in sc["_stamps"] if x is not None][idx]
                 else:
                     bad("get %d returned %s" % (k, out.get("value") or out.get("exc")), out, key="get-failed")
             if n <= 2:
@@ -129,7 +159,7 @@ def main(argv):
         rule="%d sessions: {noAuth, MD5, SHA-1} x {none, DES, AES} x {password, master, localized keys of aligned and unaligned sizes, auth and privacy key types chosen independently} x {engine id "
              "given, discovered} x {sync, async}, agent engine ids of 5..32 octets, boots/time 0..2^31-1 changing after every reply; each "
              "session: refresh then 4..6 requests, each checked for engine id, boots/time, user, MAC and decryptability; all distinct and non-trivial" % n,
-        extra={"sessions": n, "traces_validated_against_impl": n})
+        extra={"sessions": n, "traces_validated_against_impl": n, "disagreements": dis})
 
 
 def api_main(g, job):
